@@ -543,3 +543,58 @@ Proof.
   intros A N. unfold ins_tok. cbn [ty_toks]. rewrite ins_is_sorted_ins by auto.
   split; [reflexivity|]. apply sorted_ins_ascending; auto.
 Qed.
+
+(* ---- sequences of upserts on one buffer (quantifier of C18: 'all sequences of upserts') ---- *)
+From Coq Require Import List.
+Import ListNotations.
+
+
+(* a request: token id, priority mask, board mask, kind, value *)
+Definition request : Type := (Z * Z * Z * Z * Z)%type.
+Definition request_ok (q : request) : Prop :=
+  let '(k, pm, bm, kind, nv) := q in args_ok k pm bm kind nv.
+
+(* the calls one after the other on the caller's buffer, whatever each of them returns; the result is the
+   buffer after the last call and, per call, whether it reported success *)
+Fixpoint upsert_seq (qs : list request) (b : bytes) : outcome (bytes * list bool) :=
+  match qs with
+  | [] => Ok (b, [])
+  | (k, pm, bm, kind, nv) :: r =>
+    match upsert k pm bm kind nv b with
+    | Ok (b1, e) =>
+      match upsert_seq r b1 with
+      | Ok (b', oks) => Ok (b', (e =? 0) :: oks)
+      | Err x => Err x | Panic x => Panic x | Fuel => Fuel
+      end
+    | Err x => Err x | Panic x => Panic x | Fuel => Fuel
+    end
+  end.
+
+(* the intended effect of the calls that reported success, in order *)
+Fixpoint spec_seq (qs : list request) (oks : list bool) (G : list group) : list group :=
+  match qs, oks with
+  | (k, pm, bm, kind, nv) :: r, ok :: oks' =>
+    spec_seq r oks' (if ok then upsert_spec k pm bm kind nv G else G)
+  | _, _ => G
+  end.
+
+Theorem upsert_seq_refines : forall qs b G,
+  abs b = Some G -> Forall request_ok qs -> zlen b + 40 < 2 ^ 32 ->
+  exists b' oks, upsert_seq qs b = Ok (b', oks) /\ length oks = length qs /\
+    abs b' = Some (spec_seq qs oks G) /\ zlen b' = zlen b.
+Proof.
+  induction qs as [|q r IH]; intros b G A F Hbig.
+  - exists b, []. cbn. auto.
+  - destruct q as [[[[k pm] bm] kind] nv]. inversion F as [|? ? Hq Fr]; subst. cbn in Hq.
+    destruct (upsert_total k pm bm kind nv b G A Hq Hbig) as (b1 & e & U & Hcase).
+    cbn [upsert_seq]. rewrite U.
+    destruct Hcase as [-> | (-> & He)].
+    + pose proof (upsert_refines k pm bm kind nv b G b1 A Hq Hbig U) as A1.
+      destruct (upsert_sizes_consistent k pm bm kind nv b G b1 A Hq Hbig U) as (_ & _ & _ & _ & _ & L).
+      assert (Hbig1 : zlen b1 + 40 < 2 ^ 32) by (rewrite L; exact Hbig).
+      destruct (IH b1 _ A1 Fr Hbig1) as (b' & oks & S & Ln & A' & L').
+      rewrite S. exists b', (true :: oks). cbn. repeat split; auto; try congruence.
+    + destruct (IH b G A Fr Hbig) as (b' & oks & S & Ln & A' & L').
+      rewrite S. assert (e =? 0 = false) as -> by (destruct He as [-> | ->]; reflexivity).
+      exists b', (false :: oks). cbn. repeat split; auto.
+Qed.
